@@ -579,15 +579,10 @@ class ProdParser:
                     break
 
                 except ParseError as e:
-                    # needed???
-                    if stopIfNoMoreMatch:  # and token:
-                        # print "\t2stopIfNoMoreMatch", e, token, prod
-                        tokenizer.push(token)
-                        stopall = True
-
-                    else:
-                        wellformed = False
-                        self._log.error(f'{name}: {e}: {token!r}')
+                    # e.g. Missing: a started production is incomplete, which
+                    # is an error even if parsing may stop at a non matching token
+                    wellformed = False
+                    self._log.error(f'{name}: {e}: {token!r}')
                     break
 
                 else:
